@@ -13,7 +13,7 @@ Out    == IOEnv.GEN_OUT
 
 Shapes(maxTiles) == {lw \in (1..maxTiles) \X (1..maxTiles) : lw[1] * lw[2] <= maxTiles}
 Grid(L, W, V) == [1..L -> [1..W -> V]]
-ProbVals == {100000, 500000, 290000, 900000, 10000, 125000, 996000, 4000, 333333}
+ProbVals == {100000, 500000, 290000, 900000, 10000, 125000, 333333, 62500}
 Probs == [tb : ProbVals, rb : ProbVals, lb : ProbVals]
 
 Board(L, W, mv, rw, ls) == [L |-> L, W |-> W, moves |-> mv, rewards |-> rw, loose |-> ls]
